@@ -63,6 +63,11 @@ def placement_cases(L):
                                 c = base_case(n, nE, check, t, o, {1: seq}, vals=vals)
                                 # implementation-side variations the model cannot see (deterministic in i)
                                 c['write'] = 'rebind' if i % 3 == 0 else 'inplace'
+                                c['prov'] = sc.PROVENANCES[i % len(sc.PROVENANCES)]
+                                c['names'] = sc.NAME_STYLES[(i // 5) % len(sc.NAME_STYLES)]
+                                if i % 4 == 1:      # the period carries the record of an earlier (failed) solve
+                                    c['status'] = '-.FES'[(i // 4) % 5] * n
+                                    c['iters'] = [(-1, 0, 3, 7)[(i // 20) % 4]] * n
                                 for a in c['script'][1]:
                                     if a['k'] == 'warn':
                                         a['cat'] = CATS[(i // 2) % len(CATS)]
@@ -244,7 +249,32 @@ NATURAL = [
     ('log0', 'Z = Z * 10\nY = log(3 - Z)', 0.003, 4),
     ('overflow', 'Z = Z * 10\nY = exp(Z * 300)', 0.003, 4),
     ('infinf', 'Z = Z * 10\nY = 1 / (3 - Z) - 1 / (3 - Z)', 0.003, 4),
+    ('underflow', 'Z = Z * 10\nY = exp(0 - Z * 300)', 0.003, 4),      # exp(-900) = 0.0: underflow is NOT a fault
+    ('tiny', 'Z = Z * 10\nY = (exp(0 - 368) / Z) * exp(0 - 368)', 0.003, 4),   # product underflows to 0: not a fault either
 ]
+# the second statement of each natural script, evaluated independently of fsic under an explicit error state:
+# NumPy's default treatment (divide, overflow, invalid operation are warnings; underflow is silent)
+_NAT_EXPR = {
+    'div0': lambda Z: np.float64(1) / (np.float64(3) - Z),
+    'log0': lambda Z: np.log(np.float64(3) - Z),
+    'overflow': lambda Z: np.exp(Z * np.float64(300)),
+    'infinf': lambda Z: np.float64(1) / (np.float64(3) - Z) - np.float64(1) / (np.float64(3) - Z),
+    'underflow': lambda Z: np.exp(np.float64(0) - Z * np.float64(300)),
+    'tiny': lambda Z: (np.exp(np.float64(0) - np.float64(368)) / Z) * np.exp(np.float64(0) - np.float64(368)),
+}
+
+
+def natural_fault_pass(name, z0, max_pass):
+    """First pass (1-based) at which the statement for Y raises a NumPy floating-point warning, or None."""
+    Z = np.float64(z0)
+    for k in range(1, max_pass + 1):
+        Z = Z * np.float64(10)
+        with np.errstate(divide='raise', over='raise', invalid='raise', under='ignore'):
+            try:
+                _NAT_EXPR[name](Z)
+            except FloatingPointError:
+                return k
+    return None
 _NAT_CACHE = {}
 
 
@@ -281,6 +311,8 @@ def natural_run(name, script, z0, rng, rep, ctx, batch):
     t = rng.choice([0, 1, 2, -1])
     o = mkopts(rng.choice([0, 0, 2]), rng.choice([2, 3, 4, 6, 8]), 0, rng.choice(['raise', 'ignore']),
                rng.choice(ERRORS), rng.choice([True, False]))
+    if rng.random() < 0.3:      # the combination whose fault pass is decided independently below
+        o['errors'], o['catch_first_error'] = 'raise', True
     tol = 1e-6
     vals0 = [[float(x) for x in m.Z], [float(x) for x in m.Y]]
     with warnings.catch_warnings():
@@ -307,6 +339,16 @@ def natural_run(name, script, z0, rng, rep, ctx, batch):
         if bits(y) != bits(y_before) or bits(z) == bits(z_before):
             rep.violate('catch-first-stored', f'{name}: after the warning pass Y went {y_before}->{y}, Z {z_before}->{z}', case)
         rep.dist['natural:catch-first-checked'] += 1
+    # which pass faults is decided by IEEE arithmetic and NumPy's default error state, not by what the run recorded
+    if o['errors'] == 'raise' and o['catch_first_error'] and o['min_iter'] <= o['max_iter']:
+        f = natural_fault_pass(name, z0, o['max_iter'])
+        want = ['set'] * (f - 1) + ['raise'] if f is not None else ['set'] * o['max_iter']
+        got = [r[0] for r in m.rec]
+        if got != want:
+            rep.violate('natural-fault-pass', f'{name}: passes {got}, but the statement for Y '
+                        + (f'raises a floating-point warning first at pass {f}' if f else 'never raises a floating-point warning')
+                        + f' within max_iter={o["max_iter"]} -> {tag}', case)
+        rep.dist['natural:fault-pass-checked:' + ('fault' if f else 'none')] += 1
     # run the documented state machine over the recorded script
     scripted = {k: v for k, v in case.items() if k != 'source'}
     exp = expected(scripted)
